@@ -531,11 +531,136 @@ func (g *c01Gen) leaf() *c01E {
 	}
 }
 
+// nullishShape: a conditional over a nullish test of a plain variable (the shapes of toNullishExpr and their near
+// misses): test a==null / a!=null / a===null||a===undefined / … (also incomplete or over two variables), absent
+// branch undefined / void 0 / null / 0 / a variable / a call, present branch the variable itself, a member/call/index
+// chain rooted at it (possibly parenthesised), a chain rooted elsewhere, or anything
+func (g *c01Gen) nullishShape(budget int) *c01E {
+	r := g.r
+	v := r.Pick(c01Vars)
+	nul := func() *c01E {
+		switch r.Intn(4) {
+		case 0:
+			return &c01E{K: 'Z'}
+		case 1:
+			return c01V("undefined")
+		case 2:
+			return c01U("void", c01N(0))
+		}
+		return &c01E{K: 'Z'}
+	}
+	cmp := func(op string, w string) *c01E {
+		a, b := c01V(w), nul()
+		if r.Chance(20) {
+			a, b = b, a
+		}
+		return c01B(op, a, b)
+	}
+	var test *c01E
+	neg := r.Bool()
+	switch x := r.Intn(100); {
+	case x < 40:
+		test = cmp(map[bool]string{false: "==", true: "!="}[neg], v)
+	case x < 50:
+		test = cmp(map[bool]string{false: "===", true: "!=="}[neg], v)
+	default:
+		w := v
+		if r.Chance(10) {
+			w = r.Pick(c01Vars)
+		}
+		strict := func() string {
+			if r.Chance(75) {
+				return map[bool]string{false: "===", true: "!=="}[neg]
+			}
+			return map[bool]string{false: "==", true: "!="}[neg]
+		}
+		l, rr := c01B(strict(), c01V(v), &c01E{K: 'Z'}), c01B(strict(), c01V(w), c01V("undefined"))
+		if r.Chance(15) {
+			rr = c01B(strict(), c01V(w), &c01E{K: 'Z'}) // both sides test null
+		}
+		if r.Bool() {
+			l, rr = rr, l
+		}
+		op := map[bool]string{false: "||", true: "&&"}[neg]
+		if r.Chance(8) {
+			op = map[bool]string{false: "&&", true: "||"}[neg]
+		}
+		test = c01B(op, l, rr)
+	}
+	if r.Chance(15) {
+		test = c01G(test)
+	}
+	var absent *c01E
+	switch x := r.Intn(100); {
+	case x < 30:
+		absent = c01V("undefined")
+	case x < 45:
+		absent = c01U("void", c01N(0))
+	case x < 60:
+		absent = &c01E{K: 'Z'}
+	case x < 68:
+		absent = c01N(0)
+	case x < 72:
+		absent = c01U("void", c01L(c01V(r.Pick(c01Funs)), c01N(1)))
+	default:
+		absent = g.expr(r.Intn(2))
+	}
+	chain := func(root *c01E) *c01E {
+		e := root
+		for n := 1 + r.Intn(3); n > 0; n-- {
+			switch r.Intn(3) {
+			case 0:
+				e = c01D(e, r.Pick([]string{"m", "b", "k"}))
+			case 1:
+				e = c01I(e, c01Wrap(g.expr(r.Intn(2)), int(pjs.OpExpr)))
+			default:
+				e = c01L(e, c01Wrap(g.expr(r.Intn(2)), int(pjs.OpAssign)))
+			}
+		}
+		return e
+	}
+	var present *c01E
+	switch x := r.Intn(100); {
+	case x < 25:
+		present = c01V(v)
+	case x < 65:
+		present = chain(c01V(v))
+	case x < 72:
+		present = chain(c01G(c01V(v)))
+	case x < 80:
+		present = chain(c01V(r.Pick(c01Vars)))
+	case x < 86:
+		present = c01D(c01G(chain(c01V(v))), "m")
+	default:
+		present = g.expr(budget - 1)
+	}
+	absent, present = c01Wrap(absent, int(pjs.OpAssign)), c01Wrap(present, int(pjs.OpAssign))
+	e := c01C(c01Wrap(test, int(pjs.OpCoalesce)), absent, present)
+	if neg {
+		e = c01C(c01Wrap(test, int(pjs.OpCoalesce)), present, absent)
+	}
+	if r.Chance(6) {
+		// the conditional in parentheses as the object of a member access / call (open known finding K-C01-10 when it
+		// becomes an optional chain)
+		switch r.Intn(3) {
+		case 0:
+			return c01D(c01G(e), "m")
+		case 1:
+			return c01I(c01G(e), c01V(r.Pick(c01Vars)))
+		}
+		return c01L(c01G(e), c01N(1))
+	}
+	return e
+}
+
 // expr generates an expression with about `budget` operator nodes.
 func (g *c01Gen) expr(budget int) *c01E {
 	r := g.r
 	if budget <= 0 {
 		return g.leaf()
+	}
+	if r.Chance(5) {
+		return g.nullishShape(budget)
 	}
 	for try := 0; try < 20; try++ {
 		var f string
@@ -780,6 +905,11 @@ func c01RunStage(c *Ctx, name, rule string, cases []*c01Case, exhaustive bool, n
 		st.Count(key, nontrivial)
 		if cs.tag != "" {
 			st.Tag(cs.tag)
+		}
+		if strings.Contains(cs.out, "?.") {
+			st.Tag("out:?.") // the optional-chaining rewrite fired (the input never contains `?.`)
+		} else if strings.Contains(cs.out, "??") && !strings.Contains(cs.src, "??") {
+			st.Tag("out:??")
 		}
 		if !ok {
 			if msg == "unmodelled" {
